@@ -306,6 +306,22 @@ def run(chk):
                 o2 = type(e).__name__
             if o2 != o:
                 chk.fail('triples', 'decode(text) differs from interpret(parse(text))', case)
+            # every decoding entry point must give the same reading under the SAME model
+            import penman as _p
+            for how, f in (('penman.decode', lambda: _p.decode(text, model=m)),
+                           ('penman.loads', lambda: _p.loads(text, model=m)[0]),
+                           ('penman.iterdecode', lambda: next(iter(_p.iterdecode(text, model=m)))),
+                           ('codec.iterdecode(lines)', lambda: next(iter(codecs[mi].iterdecode(text.split('\n')))))):
+                try:
+                    o3 = observe(patient(f))
+                except _p.DecodeError:
+                    if how == 'penman.loads':
+                        continue         # trailing garbage after the first graph: loads must fail, decode must not
+                    o3 = 'DecodeError'
+                except Exception as e:       # noqa
+                    o3 = type(e).__name__
+                if o3 != o:
+                    chk.fail('triples', f'{how}(text, model) differs from interpret(parse(text), model)', dict(case, entry=how))
             chk.count()
 
 
